@@ -88,6 +88,31 @@ def run_pyvc(prop, tier, jobs):
     return run_modules(PYVC_MODULES, props=[prop], jobs=jobs)
 
 
+def retry_unknowns(recs, baseline, prop=None):
+    """An obligation that is proved on the unchanged tree and now comes back `unknown` is an alarm by the baseline
+    rule.  Solver answers depend on the load of the machine, so before the rule is applied the affected tasks are run
+    once more, a few at a time, with three times the solver budget; a task that then discharges everything replaces
+    its first record (noted in the record).  A second `unknown` stands."""
+    from pyvc.run import run_modules
+
+    from contracts.property_map import PYVC_MODULES
+
+    flaky = {r["task"] for r in recs if r["status"] != "crash" and any(o["status"] == "unknown" and baseline.get(r["task"], {}).get(o["name"]) == "proved" for o in r["obligations"])}
+    if not flaky or len(flaky) > 12:  # many failing tasks: a changed tree, not load
+        return recs
+    os.environ["PYVC_TIMEOUT_SCALE"] = "3"
+    try:
+        again = run_modules(PYVC_MODULES, props=[prop] if prop else None, jobs=4, names=flaky)
+    finally:
+        os.environ.pop("PYVC_TIMEOUT_SCALE", None)
+    better = {}
+    for r in again:
+        if r["status"] != "crash" and not any(o["status"] == "unknown" for o in r["obligations"]):
+            r.setdefault("notes", []).append("first run had `unknown` obligations; decided on the retry with three times the solver budget")
+            better[r["task"]] = r
+    return [better.get(r["task"], r) for r in recs]
+
+
 def run_frames(prop, tier):
     names = PROPERTY_MAP[prop].get("frames", [])
     if not names:
@@ -176,6 +201,7 @@ def check_property(prop, tier, seed, jobs=12):
 
     # ---- Tier P
     recs = run_pyvc(prop, tier, jobs)
+    recs = retry_unknowns(recs, baseline, prop)
     frs = run_frames(prop, tier)
     n_ob = n_dis = 0
     solver_s = 0.0
@@ -427,7 +453,7 @@ def proof_tier_only():
 
     baseline = json.load(open(BASELINE)) if os.path.exists(BASELINE) else {}
     known = load_known()
-    recs = run_modules(PYVC_MODULES, jobs=12) + frames.run(list(frames.CHECKS), "-")
+    recs = retry_unknowns(run_modules(PYVC_MODULES, jobs=12), baseline) + frames.run(list(frames.CHECKS), "-")
     alarms, undecided, n, n_known = [], [], 0, 0
     for r in recs:
         if r["status"] in ("undecided", "crash"):
